@@ -18,6 +18,7 @@ const (
 	fSlow     = 7 // no answer within the client's 10 s timeout
 	fSpecial  = 8 // get-sth: forged STH (bigger tree, signature does not verify); get-sth-consistency: tampered proof
 	nSrcFault = 8
+	fEmpty    = 9 // get-entries only: 200 with an empty entries array (a zero-length short read)
 )
 
 // Destination kinds.
@@ -59,6 +60,9 @@ type Case struct {
 	Seed       int
 	DupMod     int  // > 0: the log repeats its first DupMod certificates (only with the leaf-index identity)
 	SameTS     bool // repeated certificates also repeat the timestamp: byte-identical leaves
+	BigAt      int  // BigN > 0: the entries [BigAt, BigAt+BigN) carry about BigKB KiB of extra_data each
+	BigN       int
+	BigKB      int
 	SrcKey     int  // signing key of the source: 0 p256, 1 rsa2048, 2 p256 (another), 3 rsa3072
 	Plans      []SrcPlan
 	STHFaults  []int // fault kind of the n-th get-sth request (over all passes)
@@ -152,6 +156,16 @@ func (c *Case) normalise() {
 		c.DupMod = 0
 	}
 	clamp(&c.SrcKey, 0, 3)
+	clamp(&c.BigN, 0, 8)
+	if c.BigN > 0 {
+		clamp(&c.BigKB, 1, 1100)
+		if c.BigAt < 0 {
+			c.BigAt = 0
+		}
+		if f := c.final(); f > 0 {
+			c.BigAt %= f
+		}
+	}
 	if len(c.Plans) == 0 {
 		c.Plans = []SrcPlan{{}}
 	}
@@ -160,7 +174,9 @@ func (c *Case) normalise() {
 			c.Plans[i].Errs = c.Plans[i].Errs[:6]
 		}
 		for j := range c.Plans[i].Errs {
-			clamp(&c.Plans[i].Errs[j], 1, fSlow)
+			if c.Plans[i].Errs[j] != fEmpty {
+				clamp(&c.Plans[i].Errs[j], 1, fSlow)
+			}
 		}
 		if c.Plans[i].Short < 0 {
 			c.Plans[i].Short = 0
@@ -360,7 +376,11 @@ func genCase(t *rapid.T, elect bool) Case {
 		if weighted(t, "planErr", 3, 2) == 1 {
 			n := rapid.IntRange(1, 4).Draw(t, "nErrs")
 			for j := 0; j < n; j++ {
-				p.Errs = append(p.Errs, genSrcFault(t, "srcErr", false))
+				if weighted(t, "srcEmpty", 5, 1) == 1 {
+					p.Errs = append(p.Errs, fEmpty)
+				} else {
+					p.Errs = append(p.Errs, genSrcFault(t, "srcErr", false))
+				}
 			}
 		}
 		if weighted(t, "planShort", 1, 1) == 1 {
@@ -460,6 +480,21 @@ func genCase(t *rapid.T, elect bool) Case {
 	}
 	if c.Continuous && weighted(t, "stopAfter", 1, 3) == 1 {
 		c.StopAfterS = int64(rapid.IntRange(20, 400).Draw(t, "stopAfterS"))
+	}
+
+	// --- a few entries with very large certificate chains (rare: each costs megabytes)
+	if c.final() >= 4 && weighted(t, "big", 24, 1) == 1 {
+		c.BigN = rapid.IntRange(4, 6).Draw(t, "bigN")
+		c.BigKB = rapid.IntRange(700, 1100).Draw(t, "bigKB")
+		c.BigAt = rapid.IntRange(0, c.final()-1).Draw(t, "bigAt")
+		if c.Batch < c.BigN+2 {
+			c.Batch = c.BigN + rapid.IntRange(0, 6).Draw(t, "bigBatch")
+		}
+		if weighted(t, "bigWhole", 1, 3) == 1 {
+			for i := range c.Plans {
+				c.Plans[i].Short = 0
+			}
+		}
 	}
 
 	// --- schedule
